@@ -24,7 +24,7 @@ ASSUMPTIONS = [
     'say whose block counts); what is judged is that every flag is restored once all blocks have exited',
     're-assigning the identical object may raise or not; only "the held object did not change" is required',
 ]
-REQUIRED = {'forbidden_attempts': 3000, 'blocks': 500, 'blocks_raised': 100, 'flag_probes': 2000, 'ctor_constant_reference': 50,
+REQUIRED = {'linked_constant_failed_deliveries': 20, 'forbidden_attempts': 3000, 'blocks': 500, 'blocks_raised': 100, 'flag_probes': 2000, 'ctor_constant_reference': 50,
             'ctor_constant_pending_reference': 50, 'library_attempts': 100, 'async_attempts': 100, 'observer_calls': 100, 'class_blocks': 50}
 
 _st = {}
@@ -186,10 +186,106 @@ def async_case(idx, rng, P, rep):
     rep.case(('async', kind, target, via_ctor, turns_before), nontrivial=True)
 
 
+def linked_constant_case(idx, rng, P, rep):
+    """A constant that accepts references and was linked by the constructor: the library itself installs what the source
+    delivers, and user code is refused before, between and after deliveries -- also after a delivery that failed (a value
+    the parameter refuses, a watcher of the target that raises)."""
+    param = _st['param']
+
+    class Source(param.Parameterized):
+        level = param.Number(default=1.5)
+        other = param.Number(default=2.5)
+
+    class Gauge(param.Parameterized):
+        reading = param.Number(default=0.5, bounds=(0, 10), constant=True, allow_refs=True)
+        second = param.Number(default=0.5, bounds=(0, 10), constant=True, allow_refs=True)
+        serial = param.String(default='A-1', constant=True)
+        target = param.Number(default=0.5, bounds=(0, 10), allow_refs=True)
+
+    src = Source()
+    kw = dict(reading=src.param.level)
+    if rng.random() < 0.5:
+        kw['second'] = src.param.other if rng.random() < 0.5 else src.param.level
+    if rng.random() < 0.3:
+        kw['target'] = src.param.level
+    g = Gauge(**kw)
+    failing = [False]
+
+    def watcher(*events):
+        if failing[0]:
+            raise RuntimeError('watcher of the linked constant fails')
+    if rng.random() < 0.6:
+        g.param.watch(watcher, ['reading'] if rng.random() < 0.6 else ['reading', 'second', 'target'])
+        watched = True
+    else:
+        watched = False
+    desc = dict(kind='linked-constant', linked=sorted(kw), watched=watched)
+    ops = []
+
+    def viol(key, msg):
+        rep.violation(f'C14/{key}', msg, case=dict(desc, ops=ops[-20:]))
+
+    def probe(where):
+        for name in ('reading', 'second', 'serial'):
+            before = getattr(g, name)
+            rep.count('flag_probes')
+            if g.param[name].constant is not True:
+                viol('constant-flag-left-unlocked', f'{where}: Gauge.{name}.constant is {g.param[name].constant!r} on the instance')
+            try:
+                setattr(g, name, 'B-2' if name == 'serial' else 3.25)
+            except TypeError:
+                pass
+            except Exception as e:   # noqa: BLE001
+                viol('forbidden-assignment-other-error', f'{where}: {name} raised {type(e).__name__}: {e}')
+            else:
+                viol('constant-assignment-accepted', f'{where}: assignment to the constant {name} was accepted')
+            rep.count('forbidden_attempts')
+            if getattr(g, name) != before:
+                viol('constant-value-changed-by-refused-assignment', f'{where}: {name} {before!r} -> {getattr(g, name)!r}')
+        if Gauge.param['reading'].constant is not True or Gauge.param['serial'].constant is not True:
+            viol('constant-flag-left-unlocked', f'{where}: the class parameter lost its constant flag')
+
+    probe('after construction')
+    for step in range(rng.randint(3, 7)):
+        r = rng.random()
+        which = rng.choice(['level', 'other'])
+        if r < 0.45:
+            v = rng.choice([2.5, 4.5, 6.5, 8.5]) + step / 100
+            ops.append(('deliver', which, v))
+            setattr(src, which, v)
+            rep.count('linked_constant_deliveries')
+        elif r < 0.75:
+            v = 50 + step
+            ops.append(('deliver-out-of-bounds', which, v))
+            try:
+                setattr(src, which, v)
+            except ValueError:
+                rep.count('linked_constant_failed_deliveries')
+        else:
+            v = rng.choice([3.5, 5.5, 7.5]) + step / 100
+            ops.append(('deliver-watcher-raises', which, v))
+            failing[0] = True
+            try:
+                setattr(src, which, v)
+            except RuntimeError:
+                rep.count('linked_constant_failed_deliveries')
+            finally:
+                failing[0] = False
+        probe(f'after {ops[-1]}')
+        for name, ref in kw.items():
+            want = getattr(src, ref.name)
+            got = getattr(g, name)
+            if ops[-1][0] == 'deliver' and ops[-1][1] == ref.name and got != want:
+                viol('linked-constant-not-updated', f'{name} is {got!r} after the source delivered {want!r}')
+    rep.case(('linked-constant', tuple(sorted(kw)), watched), True)
+
+
 def run_case(idx, rng, P, rep):
     param = _st['param']
     if rng.random() < 0.06:
         return library_case(idx, rng, P, rep)
+    if rng.random() < 0.05:
+        return linked_constant_case(idx, rng, P, rep)
     if rng.random() < 0.05:
         return async_case(idx, rng, P, rep)
     edit_constant = param.parameterized.edit_constant
